@@ -5,6 +5,7 @@
 //   VF_OP    operation code        VF_AFL   allocator flags        VF_FMASK fault kinds (0: none)
 //   VF_SIZE  (optional) pinned pre-state size                   VF_ALIAS argument aliases v[ai]
 //   VF_MAXCNT bound on counts / range lengths
+#include "vf_pre.hpp"
 #include "vf.hpp"
 
 #ifndef VF_ELEM
